@@ -245,6 +245,9 @@ func (info ScriptListInfo) encode() []byte {
 		}
 		totalSize += 4 + 6*langCount // defaultLangSysOffset, langSysCount, langSysRecords
 	}
+	if totalSize > 0xFFFF {
+		panic("scriptListInfo too large")
+	}
 
 	buf := make([]byte, totalSize)
 
